@@ -1378,10 +1378,10 @@ func TestCheck(t *testing.T) {
 	ev.Run(t, ev.Spec[Case]{
 		ID:    "C13",
 		Level: "exploration",
-		Rule: "four generators. (d) revisions with submodules: 1-3 revisions of one module, each including the submodule sub with or without revision-date, 1-2 texts of sub (with a nested include of a second submodule in a third of the cases), six load orders. Oracle: the tree of every revision holds its own leaf, the leaf of exactly the submodule text its include denotes, and the nested submodule's leaf once. (a) revisions: 1-5 module headers with a name from {foo, bar} and 0-3 revision dates (texts with equal name and latest revision are identical), plus 0-3 importers with and without revision-date; every load permutation for up to 4 texts (24), 12 sampled for 5. Oracle: exactly one text per (name, latest revision) is accepted in every order, the bare key and undated imports denote the latest loaded revision, dated keys and dated imports the exact one. " +
-			"(b) files: 1-3 search-path directories (temporary, outside /repo and /verif) with up to 7 files from {name.yang, three name@DATE.yang, near misses: nameX@.., Xname@.., name@2020-1-01.yang, ...yang.bak, ...YANG, name-ext@.., name@DATEx.yang, name.yang.orig, nam.yang, name2.yang, name@.yang, name@20220101.yang; sometimes a directory of that name}; every file declares the wanted module with a namespace naming its own path; fetched by Read, by an undated import and by a dated import. Oracle: the module comes from the first directory holding a candidate, name.yang else the latest date (dated import: the exact file); with no candidate the fetch fails. " +
+		Rule: "five generators. (e) mixed: revisions 2018-2021 of lib each loaded, waiting as lib@DATE.yang in a search-path directory, or absent, optionally a text without revision; 1-3 importers (alpha, middle, omega) with or without revision-date using lib's grouping and typedef; three load orders, one Process. Oracle: the bare name denotes the latest revision held afterwards, undated imports denote it, dated imports denote their revision when it is held, and what an importer's uses and type bring comes from the module its import denotes. (d) revisions with submodules: 1-3 revisions of one module, each including the submodule sub with or without revision-date, 1-2 texts of sub (with a nested include of a second submodule in a third of the cases), six load orders. Oracle: the tree of every revision holds its own leaf, the leaf of exactly the submodule text its include denotes, and the nested submodule's leaf once. (a) revisions: 1-5 module headers with a name from {foo, bar} and 0-3 revision dates (texts with equal name and latest revision are identical), plus 0-3 importers with and without revision-date; every load permutation for up to 4 texts (24), 12 sampled for 5. Oracle: exactly one text per (name, latest revision) is accepted in every order, the bare key and undated imports denote the latest loaded revision, dated keys and dated imports the exact one. " +
+			"(b) files: 1-3 search-path directories (temporary, outside /repo and /verif) with up to 7 files from {name.yang, three name@DATE.yang (the wanted name is one of name, na.me, n.a-m_e, name.v1, na-me; for names with punctuation also files of modules that differ in that character only, with the latest dates), near misses: nameX@.., Xname@.., name@2020-1-01.yang, ...yang.bak, ...YANG, name-ext@.., name@DATEx.yang, name.yang.orig, nam.yang, name2.yang, name@.yang, name@20220101.yang; sometimes a directory of that name}; every file declares the wanted module with a namespace naming its own path; fetched by Read, by an undated import and by a dated import. Oracle: the module comes from the first directory holding a candidate, name.yang else the latest date (dated import: the exact file); with no candidate the fetch fails. " +
 			"(c) split: a generated single module and a random partition of its body into 1-3 submodules (all definitions move, nodes stay or move; submodules include each other where they refer to each other, mutual includes allowed with the ignore-circular option). Oracle: tree, types, attributes and identity lists of the module equal those of the unsplit module. " +
-			"Non-trivial = (a) two texts sharing a name or a duplicate, (b) >= 2 files, (c) >= 1 submodule, (d) >= 2 module revisions; distinct by case",
+			"Non-trivial = (a) two texts sharing a name or a duplicate, (b) >= 2 files, (c) >= 1 submodule, (d) >= 2 module revisions, (e) >= 2 revisions and >= 2 importers; distinct by case",
 		Assumptions: []string{
 			"recursive 'dir/...' search order and belongs-to prefixes that differ from the module's prefix are not generated",
 			"a dated import is only judged when the file (or loaded module) of exactly that revision exists",
